@@ -270,7 +270,7 @@ func convBound(c *Case) time.Duration {
 // clause is judged (see the package comment in c15_test.go).
 func dropRequired(class string) bool {
 	switch class {
-	case "stalled_reader", "tcp_stall", "tcp_reset", "tcp_stall_quiet", "reconnect_storm":
+	case "stalled_reader", "tcp_stall", "tcp_reset", "tcp_stall_quiet", "reconnect_storm", "flapping_acker":
 		return true
 	case "no_ack":
 		// open finding (a session that is read but never acknowledged is never
@@ -403,6 +403,7 @@ func runCase(spec *ChildSpec) *Result {
 		faulty  *Node
 		nk      *nackClient
 		storm   *stormClient
+		flap    *flapper
 	)
 	attach := func() *Result {
 		var err error
@@ -411,6 +412,12 @@ func runCase(spec *ChildSpec) *Result {
 		switch c.Fault.Class {
 		case "stalled_reader":
 			raw, err = dialRaw(prim.Addr, faultyAddr)
+		case "flapping_acker":
+			flap = startFlapper(prim.Addr, faultyAddr, c.Fault.Storm, c.Fault.LifeUs)
+			r.mu.Lock()
+			r.attached = true
+			r.mu.Unlock()
+			return nil
 		case "reconnect_storm":
 			storm, err = startStorm(prim.Addr, faultyAddr, c.Fault.Storm)
 			if err == nil {
@@ -553,6 +560,9 @@ func runCase(spec *ChildSpec) *Result {
 	if storm != nil {
 		storm.halt()
 	}
+	if flap != nil {
+		flap.halt()
+	}
 	close(stopReader)
 	<-readerDone
 	res.WorkMs = time.Since(t0).Milliseconds()
@@ -593,6 +603,9 @@ func runCase(spec *ChildSpec) *Result {
 		}
 		if slow != nil {
 			res.FaultyStats = map[string]any{"entries_applied": slow.n.Load()}
+		}
+		if flap != nil {
+			res.FaultyStats = map[string]any{"lives": flap.lives.Load(), "acks": flap.acks.Load(), "errors": flap.errs.Load()}
 		}
 		if storm != nil {
 			res.FaultyStats = map[string]any{"storm_cycles": storm.cycles.Load(), "storm_errors": storm.errs.Load()}
